@@ -1,6 +1,6 @@
 """Registry of engines and checks (what ./check runs for each property)."""
 
-SETUP_VARIANTS = ["plain", "asan", "fips", "tsan", "fips-tsan", "noparam", "fips-noparam"]
+SETUP_VARIANTS = ["plain", "asan", "fips", "tsan", "fips-tsan", "noparam", "fips-noparam", "noarch", "fips-noarch", "fips-noarch-tsan"]
 
 ENGINES = {
     "hashmb": dict(src=["harness/hashmb.c", "harness/hashbig.c", "harness/hashalgs.c"]),
